@@ -300,6 +300,9 @@ class Compiler:
             return_type=ret_type,
         )
         transformer.macros = self.transformer.macros
+        # IL local vars share one flat namespace per instruction.
+        # The temporaries of a sub-routine must not collide with the ones of its callers.
+        transformer.il_ops_holder.hybrid_tmp_prefix = f"h_tmp_{name}_"
         body = transformer.transform(ast_body)
         return SubRoutine(name, ret_type, params, body)
 
